@@ -140,6 +140,12 @@ fn backend_conn(mut s: TcpStream, who: &'static str) {
         if delay > 0 {
             thread::sleep(Duration::from_millis(delay));
         }
+        if let Some(spec) = header(&head, "x-resp").and_then(RespSpec::parse) {
+            if serve_big(&mut s, who, &req, &spec) {
+                continue;
+            }
+            return;
+        }
         let body = format!("{who}:{req}");
         let resp = format!("HTTP/1.1 200 OK\r\nContent-Length: {}\r\nContent-Type: text/plain\r\n\r\n{}", body.len(), body);
         if s.write_all(resp.as_bytes()).is_err() {
@@ -191,9 +197,14 @@ struct Backends {
 // client side helpers
 
 fn h1_head(req: &str, delay: u64, body_len: usize, close: bool) -> String {
+    h1_head_x(req, delay, body_len, close, None)
+}
+
+fn h1_head_x(req: &str, delay: u64, body_len: usize, close: bool, resp: Option<&RespSpec>) -> String {
     format!(
-        "POST /c10 HTTP/1.1\r\nHost: localhost\r\nX-Req: {req}\r\nX-Delay: {delay}\r\nContent-Length: {body_len}\r\n{}\r\n",
-        if close { "Connection: close\r\n" } else { "" }
+        "POST /c10 HTTP/1.1\r\nHost: localhost\r\nX-Req: {req}\r\nX-Delay: {delay}\r\nContent-Length: {body_len}\r\n{}{}\r\n",
+        if close { "Connection: close\r\n" } else { "" },
+        resp.map(|r| format!("X-Resp: {}\r\n", r.directive())).unwrap_or_default()
     )
 }
 
@@ -275,9 +286,18 @@ fn tls_over_a(tcp: TcpStream, timeout: Duration, abort: &dyn Fn() -> bool) -> Re
 }
 
 fn h2_send_headers(c: &mut H2Conn<TlsStream>, sid: u32, req: &str, delay: u64, body_len: usize, end_stream: bool) -> bool {
+    h2_send_headers_x(c, sid, req, delay, body_len, end_stream, None)
+}
+
+fn h2_send_headers_x(c: &mut H2Conn<TlsStream>, sid: u32, req: &str, delay: u64, body_len: usize, end_stream: bool, resp: Option<&RespSpec>) -> bool {
     let d = delay.to_string();
     let l = body_len.to_string();
-    let block = h2::request_block(&mut c.hp, "POST", "https", "localhost", "/c10", &[("x-req", req), ("x-delay", &d), ("content-length", &l)]);
+    let dir = resp.map(|r| r.directive()).unwrap_or_default();
+    let mut hs: Vec<(&str, &str)> = vec![("x-req", req), ("x-delay", &d), ("content-length", &l)];
+    if resp.is_some() {
+        hs.push(("x-resp", &dir));
+    }
+    let block = h2::request_block(&mut c.hp, "POST", "https", "localhost", "/c10", &hs);
     c.send(&Frame::headers(sid, block, true, end_stream))
 }
 
@@ -352,14 +372,593 @@ fn h2_read_response_a(c: &mut H2Conn<TlsStream>, sid: u32, req: &str, timeout: D
     }
 }
 
+
+// ------------------------------------------------------------------------------------------------
+// large responses: scripted backend behaviour, position-coded bodies, probes of the pipeline
+//
+// A request carrying `X-Resp: <framing>;<n>;<close|keep>;<pause_at>` is answered with a body of n
+// position-coded bytes (every byte is a function of the request id and of its offset: a missing, repeated
+// or displaced piece is visible wherever it is), framed by Content-Length (`cl`), by chunks (`chunked`)
+// or by the close of the connection (`eof`). With `close` the backend announces `Connection: close`,
+// half-closes after the last byte and then waits for the proxy to close: `detached` = the proxy has read
+// the response to its end and released the backend connection. With pause_at > 0 the backend stops after
+// that many body bytes until the orchestrating thread opens the gate of the request (a slow backend).
+
+#[derive(Clone, Debug)]
+struct RespSpec {
+    framing: &'static str, // cl | chunked | eof
+    close: bool,
+    n: usize,
+    pause_at: usize,
+}
+impl RespSpec {
+    fn parse(v: &str) -> Option<RespSpec> {
+        let f: Vec<&str> = v.split(';').collect();
+        if f.len() != 4 {
+            return None;
+        }
+        let framing = match f[0] {
+            "cl" => "cl",
+            "chunked" => "chunked",
+            "eof" => "eof",
+            _ => return None,
+        };
+        Some(RespSpec { framing, close: f[1] == "close" || framing == "eof", n: f[2].parse().ok()?, pause_at: f[3].parse().ok()? })
+    }
+    fn directive(&self) -> String {
+        format!("{};{};{};{}", self.framing, if self.close { "close" } else { "keep" }, self.n, self.pause_at)
+    }
+    fn json(&self) -> Value {
+        json!({"framing": self.framing, "close": self.close, "n": self.n, "pause_at": self.pause_at})
+    }
+}
+
+fn salt_of(req: &str) -> u8 {
+    req.bytes().fold(0x5au8, |a, b| a.rotate_left(3) ^ b)
+}
+#[inline]
+fn pat(salt: u8, i: usize) -> u8 {
+    ((i % 251) as u8) ^ (((i / 251) % 256) as u8) ^ salt
+}
+const CHUNK: usize = 1000;
+
+#[derive(Clone, Debug, Default)]
+struct RespState {
+    /// the backend has written the whole response
+    written: bool,
+    /// ... and nothing of it is left in the backend's own socket
+    flushed: bool,
+    /// (close) the proxy closed the backend connection after the half-close
+    detached: bool,
+    gate: bool,
+    /// paced backend: body bytes it may have sent so far (raised by the orchestrating thread)
+    allow: usize,
+    /// body bytes written and gone from the backend's socket
+    sent: usize,
+    /// the proxy's end of the backend connection
+    peer: Option<SocketAddr>,
+    failed: Option<String>,
+}
+struct RespTable {
+    map: Mutex<HashMap<String, RespState>>,
+    cv: Condvar,
+}
+static RESP: OnceLock<RespTable> = OnceLock::new();
+fn resp_table() -> &'static RespTable {
+    RESP.get_or_init(|| RespTable { map: Mutex::new(HashMap::new()), cv: Condvar::new() })
+}
+fn resp_update(req: &str, f: impl FnOnce(&mut RespState)) {
+    let t = resp_table();
+    f(t.map.lock().unwrap().entry(req.to_string()).or_default());
+    t.cv.notify_all();
+}
+fn resp_get(req: &str) -> RespState {
+    resp_table().map.lock().unwrap().get(req).cloned().unwrap_or_default()
+}
+fn resp_wait(req: &str, timeout: Duration, pred: impl Fn(&RespState) -> bool) -> bool {
+    let t = resp_table();
+    let deadline = Instant::now() + timeout;
+    let mut g = t.map.lock().unwrap();
+    loop {
+        if pred(g.entry(req.to_string()).or_default()) {
+            return true;
+        }
+        let now = Instant::now();
+        if now >= deadline {
+            return false;
+        }
+        g = t.cv.wait_timeout(g, deadline - now).unwrap().0;
+    }
+}
+
+/// the body (wire form) between body offsets [from, to)
+fn body_wire(spec: &RespSpec, salt: u8, from: usize, to: usize, out: &mut Vec<u8>) {
+    if spec.framing != "chunked" {
+        out.extend((from..to).map(|i| pat(salt, i)));
+        return;
+    }
+    // whole chunks of CHUNK bytes; `from` and `to` are chunk-aligned (or the end of the body)
+    let mut at = from;
+    while at < to {
+        let l = CHUNK.min(to - at);
+        out.extend_from_slice(format!("{l:x}\r\n").as_bytes());
+        out.extend((at..at + l).map(|i| pat(salt, i)));
+        out.extend_from_slice(b"\r\n");
+        at += l;
+    }
+}
+
+/// true: the connection is kept for the next request
+fn serve_big(s: &mut TcpStream, who: &str, req: &str, spec: &RespSpec) -> bool {
+    use std::os::unix::io::AsRawFd;
+    s.set_nodelay(true).ok();
+    s.set_write_timeout(Some(Duration::from_secs(60))).ok();
+    let peer = s.peer_addr().ok();
+    resp_update(req, |st| st.peer = peer);
+    let salt = salt_of(req);
+    let mut head = format!("HTTP/1.1 200 OK\r\nContent-Type: application/octet-stream\r\nX-Be: {who}\r\n");
+    match spec.framing {
+        "cl" => head.push_str(&format!("Content-Length: {}\r\n", spec.n)),
+        "chunked" => head.push_str("Transfer-Encoding: chunked\r\n"),
+        _ => {}
+    }
+    if spec.close {
+        head.push_str("Connection: close\r\n");
+    }
+    head.push_str("\r\n");
+    // the body goes out as far as the orchestrating thread allows: everything at once (pause_at = 0), or up
+    // to pause_at and then in the steps `allow` is raised by, or the rest at once when the gate opens
+    let pause = if spec.pause_at > 0 { (spec.pause_at / CHUNK * CHUNK).min(spec.n) } else { spec.n };
+    resp_update(req, |st| st.allow = st.allow.max(pause));
+    let mut res = s.write_all(head.as_bytes());
+    let mut sent = 0usize;
+    let fd = s.as_raw_fd();
+    while res.is_ok() && sent < spec.n {
+        let mut upto = sent;
+        let ok = resp_wait(req, Duration::from_secs(60), |st| st.gate || st.allow > sent);
+        if !ok {
+            resp_update(req, |st| st.failed = Some("the gate was never opened".into()));
+            upto = spec.n;
+        } else {
+            let st = resp_get(req);
+            upto = upto.max(if st.gate { spec.n } else { st.allow.min(spec.n) });
+        }
+        let mut part = Vec::new();
+        body_wire(spec, salt, sent, upto, &mut part);
+        res = s.write_all(&part);
+        sent = upto;
+        if res.is_ok() && sent < spec.n {
+            let t0 = Instant::now();
+            while outq(fd).unwrap_or(0) > 0 && t0.elapsed() < Duration::from_secs(30) {
+                thread::sleep(Duration::from_millis(1));
+            }
+            resp_update(req, |st| st.sent = sent);
+        }
+    }
+    if res.is_ok() && spec.framing == "chunked" {
+        res = s.write_all(b"0\r\n\r\n");
+    }
+    if let Err(e) = res {
+        // the proxy gave the exchange up
+        resp_update(req, |st| {
+            st.failed = Some(format!("backend write: {e}"));
+            st.written = true;
+            st.flushed = true;
+            st.detached = true;
+        });
+        return false;
+    }
+    resp_update(req, |st| st.written = true);
+    let t0 = Instant::now();
+    while outq(fd).unwrap_or(0) > 0 && t0.elapsed() < Duration::from_secs(30) {
+        thread::sleep(Duration::from_millis(1));
+    }
+    resp_update(req, |st| {
+        st.flushed = true;
+        st.sent = spec.n;
+    });
+    if !spec.close {
+        return true;
+    }
+    let _ = s.shutdown(std::net::Shutdown::Write);
+    s.set_read_timeout(Some(Duration::from_secs(60))).ok();
+    let mut t = [0u8; 1024];
+    loop {
+        match s.read(&mut t) {
+            Ok(0) | Err(_) => break,
+            Ok(_) => {}
+        }
+    }
+    resp_update(req, |st| st.detached = true);
+    false
+}
+
+// ---- probes: the worker threads live in this process, so their sockets are descriptors of this process.
+// They are only used to steer a scenario into the state it is about (the tail of a response held by the
+// worker behind a full client socket) and to measure that it got there - never for a verdict.
+
+fn sockaddr_of(ss: &libc::sockaddr_storage) -> Option<SocketAddr> {
+    if ss.ss_family as i32 != libc::AF_INET {
+        return None;
+    }
+    let a: &libc::sockaddr_in = unsafe { &*(ss as *const _ as *const libc::sockaddr_in) };
+    Some(SocketAddr::from((std::net::Ipv4Addr::from(u32::from_be(a.sin_addr.s_addr)), u16::from_be(a.sin_port))))
+}
+fn sock_pair_of(fd: i32) -> Option<(SocketAddr, SocketAddr)> {
+    unsafe {
+        let mut ss: libc::sockaddr_storage = std::mem::zeroed();
+        let mut l = std::mem::size_of::<libc::sockaddr_storage>() as libc::socklen_t;
+        if libc::getsockname(fd, &mut ss as *mut _ as *mut libc::sockaddr, &mut l) != 0 {
+            return None;
+        }
+        let local = sockaddr_of(&ss)?;
+        let mut ps: libc::sockaddr_storage = std::mem::zeroed();
+        let mut l = std::mem::size_of::<libc::sockaddr_storage>() as libc::socklen_t;
+        if libc::getpeername(fd, &mut ps as *mut _ as *mut libc::sockaddr, &mut l) != 0 {
+            return None;
+        }
+        Some((local, sockaddr_of(&ps)?))
+    }
+}
+/// the descriptor (of any thread of this process) of the TCP connection local -> peer
+fn find_fd(local: SocketAddr, peer: SocketAddr) -> Option<i32> {
+    let dir = std::fs::read_dir("/proc/self/fd").ok()?;
+    for e in dir.flatten() {
+        if let Some(fd) = e.file_name().to_str().and_then(|n| n.parse::<i32>().ok()) {
+            if sock_pair_of(fd) == Some((local, peer)) {
+                return Some(fd);
+            }
+        }
+    }
+    None
+}
+fn find_fd_within(local: SocketAddr, peer: SocketAddr, timeout: Duration) -> Option<i32> {
+    let t0 = Instant::now();
+    loop {
+        if let Some(fd) = find_fd(local, peer) {
+            return Some(fd);
+        }
+        if t0.elapsed() >= timeout {
+            return None;
+        }
+        thread::sleep(Duration::from_millis(5));
+    }
+}
+/// bytes written to the socket that the peer's kernel has not taken yet
+fn outq(fd: i32) -> Option<usize> {
+    let mut v: libc::c_int = 0;
+    if unsafe { libc::ioctl(fd, libc::TIOCOUTQ, &mut v) } == 0 { Some(v.max(0) as usize) } else { None }
+}
+/// bytes received and not read
+fn inq(fd: i32) -> Option<usize> {
+    let mut v: libc::c_int = 0;
+    if unsafe { libc::ioctl(fd, libc::FIONREAD, &mut v) } == 0 { Some(v.max(0) as usize) } else { None }
+}
+/// a descriptor is only trusted while it still is the connection it was found for
+fn probe_out(fd: Option<i32>, local: SocketAddr, peer: SocketAddr) -> Option<usize> {
+    let fd = fd?;
+    if sock_pair_of(fd) != Some((local, peer)) {
+        return None;
+    }
+    outq(fd)
+}
+
+/// TCP client whose receive buffer and segment size are small: little fits between the worker and the client
+fn small_client(addr: SocketAddr, rcvbuf: i32, mss: i32) -> std::io::Result<TcpStream> {
+    use std::os::unix::io::FromRawFd;
+    let SocketAddr::V4(a4) = addr else {
+        return Err(std::io::Error::other("ipv4 only"));
+    };
+    unsafe {
+        let fd = libc::socket(libc::AF_INET, libc::SOCK_STREAM | libc::SOCK_CLOEXEC, 0);
+        if fd < 0 {
+            return Err(std::io::Error::last_os_error());
+        }
+        let s = TcpStream::from_raw_fd(fd);
+        libc::setsockopt(fd, libc::SOL_SOCKET, libc::SO_RCVBUF, &rcvbuf as *const _ as *const libc::c_void, 4);
+        libc::setsockopt(fd, libc::IPPROTO_TCP, libc::TCP_MAXSEG, &mss as *const _ as *const libc::c_void, 4);
+        let sa = libc::sockaddr_in {
+            sin_family: libc::AF_INET as libc::sa_family_t,
+            sin_port: a4.port().to_be(),
+            sin_addr: libc::in_addr { s_addr: u32::from(*a4.ip()).to_be() },
+            sin_zero: [0; 8],
+        };
+        if libc::connect(fd, &sa as *const _ as *const libc::sockaddr, std::mem::size_of::<libc::sockaddr_in>() as libc::socklen_t) != 0 {
+            return Err(std::io::Error::last_os_error());
+        }
+        Ok(s)
+    }
+}
+
+/// Incremental HTTP/1.1 response reader of a position-coded body.
+#[derive(Default)]
+struct H1Resp {
+    buf: Vec<u8>,
+    head_len: usize, // 0: head not complete yet
+    status: String,
+    by: String,
+    framing: String, // cl | chunked | eof (as the CLIENT sees the response)
+    clen: usize,
+    body_got: usize,
+    corrupt: Option<usize>,
+    complete: bool,
+    raw: usize, // bytes taken from the socket
+    chunk_left: usize,
+    cstate: u8, // 0 size line, 1 data, 2 crlf after data, 3 trailers
+    salt: u8,
+}
+impl H1Resp {
+    fn new(salt: u8) -> H1Resp {
+        H1Resp { salt, by: "none".into(), ..Default::default() }
+    }
+    fn take_body(&mut self, n: usize) {
+        for i in 0..n {
+            if self.corrupt.is_none() && self.buf[i] != pat(self.salt, self.body_got + i) {
+                self.corrupt = Some(self.body_got + i);
+            }
+        }
+        self.body_got += n;
+        self.buf.drain(..n);
+    }
+    fn feed(&mut self, data: &[u8]) {
+        self.raw += data.len();
+        self.buf.extend_from_slice(data);
+        if self.head_len == 0 {
+            let Some(p) = find(&self.buf, b"\r\n\r\n") else { return };
+            let head = String::from_utf8_lossy(&self.buf[..p + 4]).to_string();
+            self.head_len = p + 4;
+            self.status = head.split(' ').nth(1).unwrap_or("").to_string();
+            self.by = header(&head, "x-be").unwrap_or("none").to_string();
+            if header(&head, "transfer-encoding").map(|v| v.to_ascii_lowercase().contains("chunked")).unwrap_or(false) {
+                self.framing = "chunked".into();
+            } else if let Some(l) = header(&head, "content-length").and_then(|v| v.parse::<usize>().ok()) {
+                self.framing = "cl".into();
+                self.clen = l;
+                self.complete = l == 0;
+            } else {
+                self.framing = "eof".into();
+            }
+            self.buf.drain(..p + 4);
+        }
+        loop {
+            if self.complete {
+                return;
+            }
+            match self.framing.as_str() {
+                "cl" => {
+                    let n = self.buf.len().min(self.clen - self.body_got);
+                    self.take_body(n);
+                    self.complete = self.body_got == self.clen;
+                    return;
+                }
+                "eof" => {
+                    let n = self.buf.len();
+                    self.take_body(n);
+                    return;
+                }
+                _ => match self.cstate {
+                    0 => {
+                        let Some(p) = find(&self.buf, b"\r\n") else { return };
+                        let line = String::from_utf8_lossy(&self.buf[..p]).to_string();
+                        let hex = line.split(';').next().unwrap_or("").trim();
+                        match usize::from_str_radix(hex, 16) {
+                            Ok(0) => self.cstate = 3,
+                            Ok(l) => {
+                                self.chunk_left = l;
+                                self.cstate = 1;
+                            }
+                            Err(_) => {
+                                self.corrupt = Some(self.body_got);
+                                self.complete = true;
+                            }
+                        }
+                        self.buf.drain(..p + 2);
+                    }
+                    1 => {
+                        let n = self.buf.len().min(self.chunk_left);
+                        if n == 0 {
+                            return;
+                        }
+                        self.take_body(n);
+                        self.chunk_left -= n;
+                        if self.chunk_left == 0 {
+                            self.cstate = 2;
+                        }
+                    }
+                    2 => {
+                        if self.buf.len() < 2 {
+                            return;
+                        }
+                        if &self.buf[..2] != b"\r\n" {
+                            self.corrupt = Some(self.body_got);
+                        }
+                        self.buf.drain(..2);
+                        self.cstate = 0;
+                    }
+                    _ => {
+                        let Some(p) = find(&self.buf, b"\r\n") else { return };
+                        let empty = p == 0;
+                        self.buf.drain(..p + 2);
+                        if empty {
+                            self.complete = true;
+                        }
+                    }
+                },
+            }
+        }
+    }
+    /// how the exchange ended for the client. `end`: "" (still open), "eof", "reset", "timeout"
+    fn outcome(&self, end: &str, n: usize) -> String {
+        if self.head_len > 0 && self.status != "200" {
+            return format!("status{}", self.status);
+        }
+        if self.corrupt.is_some() || self.body_got > n {
+            return "corrupt".into();
+        }
+        let whole = self.body_got == n;
+        match (self.framing.as_str(), end) {
+            (_, _) if self.complete => if whole { "done".into() } else { "short".into() },
+            ("eof", "eof") if self.head_len > 0 => if whole { "done".into() } else { "short".into() },
+            (_, "timeout") | (_, "") => "timeout".into(),
+            _ => "cut".into(),
+        }
+    }
+}
+
+/// reads until `stop` says so; returns "" (stopped), "eof", "reset" or "timeout"
+fn h1_pump(t: &mut TcpStream, p: &mut H1Resp, timeout: Duration, max_raw: usize, stop: &dyn Fn(&H1Resp) -> bool) -> &'static str {
+    let deadline = Instant::now() + timeout;
+    let mut tmp = vec![0u8; 16384];
+    t.set_read_timeout(Some(Duration::from_millis(100))).ok();
+    loop {
+        if stop(p) || p.raw >= max_raw {
+            return "";
+        }
+        if Instant::now() >= deadline {
+            return "timeout";
+        }
+        let want = tmp.len().min(max_raw - p.raw);
+        match t.read(&mut tmp[..want]) {
+            Ok(0) => return "eof",
+            Ok(n) => p.feed(&tmp[..n]),
+            Err(e) if e.kind() == std::io::ErrorKind::WouldBlock || e.kind() == std::io::ErrorKind::TimedOut => {}
+            Err(_) => return "reset",
+        }
+    }
+}
+
+/// one HTTP/2 stream carrying a position-coded (or a small) response
+#[derive(Default, Clone)]
+struct H2Rx {
+    status: String,
+    by: String,
+    got: usize,
+    small: Vec<u8>,
+    big: bool,
+    salt: u8,
+    corrupt: Option<usize>,
+    end: bool,
+    rst: bool,
+}
+struct H2Pump {
+    streams: HashMap<u32, H2Rx>,
+    goaway: bool,
+    /// WINDOW_UPDATE for everything received (connection and stream)
+    grant: bool,
+}
+/// returns "" (stopped), "eof", "timeout"
+fn h2_pump(c: &mut H2Conn<TlsStream>, st: &mut H2Pump, timeout: Duration, quiet: Option<Duration>, stop: &dyn Fn(&H2Pump) -> bool) -> &'static str {
+    let deadline = Instant::now() + timeout;
+    let mut last = Instant::now();
+    loop {
+        if stop(st) {
+            return "";
+        }
+        let now = Instant::now();
+        if now >= deadline {
+            return "timeout";
+        }
+        if let Some(q) = quiet {
+            if last.elapsed() >= q {
+                return "";
+            }
+        }
+        match c.read_frame((deadline - now).min(Duration::from_millis(100))) {
+            None => {
+                if c.eof {
+                    return "eof";
+                }
+            }
+            Some(f) => {
+                last = Instant::now();
+                if std::env::var("C10_DEBUG").is_ok() {
+                    eprintln!("h2pump frame ty={} flags={} sid={} len={} {:?}", f.ty, f.flags, f.sid, f.payload.len(),
+                        if f.ty == h2::GOAWAY || f.ty == h2::RST_STREAM { f.payload.clone() } else { vec![] });
+                }
+                match f.ty {
+                    h2::SETTINGS if f.flags & h2::FLAG_ACK == 0 => {
+                        c.send(&Frame::settings_ack());
+                    }
+                    h2::GOAWAY => st.goaway = true,
+                    h2::HEADERS => {
+                        let hs = c.hp.decode(&f.payload).unwrap_or_default();
+                        if let Some(x) = st.streams.get_mut(&f.sid) {
+                            for (k, v) in hs {
+                                if k == b":status" {
+                                    x.status = String::from_utf8_lossy(&v).to_string();
+                                } else if k == b"x-be" {
+                                    x.by = String::from_utf8_lossy(&v).to_string();
+                                }
+                            }
+                        }
+                    }
+                    h2::DATA => {
+                        let d = f.data_bytes().map(|d| d.to_vec()).unwrap_or_default();
+                        if let Some(x) = st.streams.get_mut(&f.sid) {
+                            if x.big {
+                                for (i, b) in d.iter().enumerate() {
+                                    if x.corrupt.is_none() && *b != pat(x.salt, x.got + i) {
+                                        x.corrupt = Some(x.got + i);
+                                    }
+                                }
+                            } else {
+                                x.small.extend_from_slice(&d);
+                            }
+                            x.got += d.len();
+                        }
+                        if st.grant && !f.payload.is_empty() {
+                            let l = f.payload.len() as u32;
+                            c.send(&Frame::window_update(0, l));
+                            if !f.end_stream() {
+                                c.send(&Frame::window_update(f.sid, l));
+                            }
+                        }
+                    }
+                    h2::RST_STREAM => {
+                        if let Some(x) = st.streams.get_mut(&f.sid) {
+                            x.rst = true;
+                        }
+                    }
+                    _ => {}
+                }
+                if f.end_stream() {
+                    if let Some(x) = st.streams.get_mut(&f.sid) {
+                        x.end = true;
+                    }
+                }
+            }
+        }
+    }
+}
+fn h2_big_outcome(x: &H2Rx, end: &str, n: usize) -> String {
+    if !x.status.is_empty() && x.status != "200" {
+        return format!("status{}", x.status);
+    }
+    if x.corrupt.is_some() || x.got > n {
+        return "corrupt".into();
+    }
+    if x.end {
+        return if x.got == n { "done".into() } else { "short".into() };
+    }
+    if x.rst || end == "eof" {
+        return "cut".into();
+    }
+    "timeout".into()
+}
+
 // ------------------------------------------------------------------------------------------------
 // scenario description
 
 #[derive(Clone, Debug)]
 struct SlotSpec {
-    stage: &'static str, // preHeaders midBody awaitResp idleKeepAlive h2Open h2Await
+    stage: &'static str, // preHeaders midBody awaitResp idleKeepAlive h2Open h2Await | respStreaming respTail h2RespStreaming h2RespTail
     partial: bool,
     release: &'static str, // beforeStop afterStop afterAll never
+    /// response stages: what the backend answers and how
+    resp: Option<RespSpec>,
+    /// H2 response stages: the large response is on the stream opened first (a small exchange, finished
+    /// before the stop, is on the other stream of the connection)
+    big_first: bool,
 }
 
 #[derive(Clone, Debug)]
@@ -390,6 +989,21 @@ struct Slot {
     ended: bool,
     /// the rest of the request was written, the answer is still awaited
     released: bool,
+    /// response stages
+    rc: Option<RespCtx>,
+}
+
+/// client side of a slot parked while its response is being delivered
+struct RespCtx {
+    spec: RespSpec,
+    h1: H1Resp,
+    h2: H2Pump,
+    sid: u32,
+    /// bytes of the response that had left the worker (read by the client, in its socket or on their way)
+    /// when the slot was declared parked; None: not measured
+    delivered: Option<usize>,
+    /// what the set-up measured (capacity of the pipe, target and fallback steps)
+    info: Value,
 }
 
 struct Ctl {
@@ -397,6 +1011,13 @@ struct Ctl {
     ctr: Arc<AtomicUsize>,
     rng: StdRng,
     jitter_ms: u64,
+    /// before the stop was written (lower bound of the moment the worker arms its graceful deadline)
+    stop_at: Option<Instant>,
+    /// how long a parked client stays silent after the stop before it reads on: long enough for the first
+    /// passes of shut_down_sessions, far inside the graceful deadline
+    resume_ms: u64,
+    /// the run says nothing (e.g. this thread was so late that the graceful deadline may have passed)
+    inconclusive: Option<String>,
 }
 impl Ctl {
     /// record the event, publish the new count, then linger a (seeded) moment so that the hammers get to
@@ -411,6 +1032,332 @@ impl Ctl {
             }
         }
     }
+}
+
+
+// ------------------------------------------------------------------------------------------------
+// slots parked while their RESPONSE is being delivered
+
+const SMALL_RCVBUF: i32 = 2048;
+const SMALL_MSS: i32 = 536;
+const H2_WINDOW: usize = 65_535;
+/// send buffer given to the worker's socket towards a client that does not read (the kernel doubles it)
+const FRONT_SNDBUF: i32 = 8192;
+
+/// polls `probe` every 5 ms until it has returned the same value 8 times in a row
+fn settle(probe: &dyn Fn() -> Option<usize>, timeout: Duration) -> Option<usize> {
+    settle_n(probe, 8, 5, timeout)
+}
+fn settle_n(probe: &dyn Fn() -> Option<usize>, n: usize, every_ms: u64, timeout: Duration) -> Option<usize> {
+    let t0 = Instant::now();
+    let mut last: Option<usize> = None;
+    let mut same = 0;
+    while t0.elapsed() < timeout {
+        let v = probe();
+        if v.is_some() && v == last {
+            same += 1;
+            if same >= n {
+                return v;
+            }
+        } else {
+            same = 0;
+            last = v;
+        }
+        thread::sleep(Duration::from_millis(every_ms));
+    }
+    None
+}
+/// length on the wire of the first `b` body bytes (b: a multiple of CHUNK, or the whole body)
+fn wire_len(spec: &RespSpec, b: usize) -> usize {
+    if spec.framing != "chunked" {
+        return b;
+    }
+    let full = b / CHUNK;
+    let rest = b % CHUNK;
+    full * (format!("{CHUNK:x}").len() + 2 + CHUNK + 2) + if rest > 0 { format!("{rest:x}").len() + 2 + rest + 2 } else { 0 }
+}
+
+/// the worker has read the response to its end: the backend saw its connection closed (close), or
+/// everything it wrote has left its socket and nothing waits unread in the worker's (keep-alive)
+fn backend_done(req: &str, spec: &RespSpec, be_addr: SocketAddr) -> bool {
+    let st = resp_get(req);
+    if st.failed.is_some() {
+        return true;
+    }
+    if spec.close {
+        return st.detached;
+    }
+    if !st.flushed {
+        return false;
+    }
+    match st.peer.and_then(|p| find_fd(p, be_addr)) {
+        Some(fd) => inq(fd) == Some(0),
+        None => true,
+    }
+}
+fn wait_backend_done(req: &str, spec: &RespSpec, be_addr: SocketAddr, timeout: Duration) -> bool {
+    let t0 = Instant::now();
+    loop {
+        if backend_done(req, spec, be_addr) {
+            return true;
+        }
+        if t0.elapsed() >= timeout {
+            return false;
+        }
+        thread::sleep(Duration::from_millis(4));
+    }
+}
+
+#[allow(clippy::too_many_arguments)]
+fn open_resp_slot(sp: &SlotSpec, r: usize, a: usize, addr: SocketAddr, be_addr: SocketAddr, req: &str, buffer_size: usize, ctl: &mut Ctl) -> Result<(Conn, RespCtx), String> {
+    use std::os::unix::io::AsRawFd;
+    let spec = sp.resp.clone().ok_or("no response description")?;
+    let salt = salt_of(req);
+    let is_h2 = sp.stage.starts_with("h2");
+    let tail = sp.stage.ends_with("Tail");
+    let pause = (spec.pause_at / CHUNK * CHUNK).min(spec.n);
+    let open_ev = |stage: &str| json!({"e": "SlotOpen", "r": r, "a": a, "stage": stage, "partial": false, "for": sp.stage, "resp": spec.json()});
+    let mut ctx = RespCtx {
+        spec: spec.clone(),
+        h1: H1Resp::new(salt),
+        h2: H2Pump { streams: HashMap::new(), goaway: false, grant: false },
+        sid: 0,
+        delivered: None,
+        info: json!({}),
+    };
+    if !is_h2 {
+        let mut t = if tail { small_client(addr, SMALL_RCVBUF, SMALL_MSS) } else { TcpStream::connect_timeout(&addr, T_IO) }.map_err(|e| format!("connect: {e}"))?;
+        t.set_nodelay(true).ok();
+        t.set_write_timeout(Some(T_IO)).ok();
+        let local = t.local_addr().map_err(|e| e.to_string())?;
+        // (tail) the worker's socket towards this client gets its small send buffer before anything flows
+        let front = if tail { find_fd_within(addr, local, Duration::from_secs(3)) } else { None };
+        let sndbuf = front.map(|fd| {
+            let want: libc::c_int = FRONT_SNDBUF;
+            let mut v: libc::c_int = 0;
+            let mut l = 4 as libc::socklen_t;
+            unsafe {
+                if sock_pair_of(fd) == Some((addr, local)) {
+                    libc::setsockopt(fd, libc::SOL_SOCKET, libc::SO_SNDBUF, &want as *const _ as *const libc::c_void, 4);
+                    libc::getsockopt(fd, libc::SOL_SOCKET, libc::SO_SNDBUF, &mut v as *mut _ as *mut libc::c_void, &mut l);
+                }
+            }
+            v
+        });
+        let mut m = h1_head_x(req, 0, BODY.len(), false, Some(&spec)).into_bytes();
+        m.extend_from_slice(BODY);
+        t.write_all(&m).map_err(|e| format!("request: {e}"))?;
+        if wait_seen(req, T_IO).as_deref() != Some("old") {
+            return Err("the request head did not reach the old worker's backend".into());
+        }
+        ctl.log(open_ev("awaitResp"));
+        if !tail {
+            // (c) a slow backend: the client has the head and the first part, the rest is still to come
+            let end = h1_pump(&mut t, &mut ctx.h1, T_IO, usize::MAX, &|p| p.body_got >= pause);
+            if !end.is_empty() {
+                return Err(format!("first part: {end}"));
+            }
+            ctl.log(json!({"e": "RespPart", "r": r, "got": ctx.h1.raw, "body": ctx.h1.body_got}));
+            return Ok((Conn::H1(t), ctx));
+        }
+        // (a) The client does not read. The worker's socket towards it gets a small, fixed send buffer (set from
+        // here: the worker threads live in this process; it stands for a host with a small tcp_wmem - left to
+        // itself Linux grows that buffer to megabytes and nothing ever waits in the worker's own buffer). The
+        // pipe between the worker and the client (that send buffer + the client's small receive buffer) fills
+        // up and settles: its capacity is measured. The client then takes exactly what leaves, beyond the pipe,
+        // about a buffer of the response (a little more is let through in 2 KB steps if it is too much): that
+        // can only stay in the worker, which reads the backend to its end and releases it. The tail of the response is now held by the
+        // worker, behind a full socket, with the backend gone.
+        let n = spec.n;
+        let cfd = t.as_raw_fd();
+        if front.is_none() {
+            return Err("the worker's socket towards the client was not found".into());
+        }
+        let pipe = || -> Option<usize> { Some(inq(cfd)? + probe_out(front, addr, local)?) };
+        let cap = settle(&pipe, Duration::from_secs(5)).ok_or_else(|| format!("the pipe towards the client never settled (front={front:?})"))?;
+        let mut pk = vec![0u8; 4096];
+        let got = t.peek(&mut pk).map_err(|e| format!("peek: {e}"))?;
+        let hl = find(&pk[..got], b"\r\n\r\n").ok_or("no response head in the client's socket")? + 4;
+        let mut seen = H1Resp::new(salt);
+        seen.feed(&pk[..hl]);
+        if seen.framing != spec.framing {
+            return Err(format!("the client sees a response framed by {} for {}", seen.framing, spec.framing));
+        }
+        let w_all = hl + wire_len(&spec, n) + if spec.framing == "chunked" { 5 } else { 0 };
+        // aim high: the pipe holds a few KB more once the client has read (the same send buffer takes more
+        // payload in larger segments); what does not fit into the worker's buffer is let through in small steps
+        let target = ctl.rng.random_range(buffer_size.saturating_sub(6000).max(3000)..=buffer_size.saturating_sub(1500).max(3001));
+        if w_all <= cap + target + hl {
+            return Err("response too small for the pipe".into());
+        }
+        let x = w_all - cap - target;
+        let end = h1_pump(&mut t, &mut ctx.h1, T_IO, x, &|_| false);
+        if !end.is_empty() {
+            return Err(format!("first part: {end}"));
+        }
+        let mut steps = 0usize;
+        while !wait_backend_done(req, &spec, be_addr, Duration::from_millis(if steps == 0 { 300 } else { 40 })) {
+            // let a little more through at a time (less than the worker moves at once: a third of its send buffer)
+            steps += 1;
+            if steps > 400 {
+                return Err("the backend never got to the end of its response".into());
+            }
+            let lim = ctx.h1.raw + 2048;
+            let end = h1_pump(&mut t, &mut ctx.h1, Duration::from_millis(500), lim, &|_| false);
+            if end == "eof" || end == "reset" {
+                break;
+            }
+        }
+        let after = settle(&pipe, Duration::from_secs(2));
+        ctx.delivered = after.map(|q| ctx.h1.raw + q);
+        let st = resp_get(req);
+        let held_est = ctx.delivered.map(|d| w_all as i64 - d as i64);
+        ctx.info = json!({"pipe": cap, "front_sndbuf": sndbuf, "target_held": target, "w_all": w_all, "fallback_steps": steps, "delivered": ctx.delivered,
+                          "held_est": held_est, "rcvbuf": SMALL_RCVBUF, "mss": SMALL_MSS, "buffer_size": buffer_size});
+        ctl.log(json!({"e": "RespPart", "r": r, "got": ctx.h1.raw, "body": ctx.h1.body_got}));
+        ctl.log(json!({"e": "RespBackendDone", "r": r, "released": spec.close, "backend_failed": st.failed, "held_est": held_est}));
+        return Ok((Conn::H1(t), ctx));
+    }
+
+    // ---- H2: the large response on one stream, a small finished exchange on the other
+    let tcp = TcpStream::connect_timeout(&addr, T_IO).map_err(|e| format!("connect: {e}"))?;
+    tcp.set_nodelay(true).ok();
+    let mut c = tls_over(tcp, T_IO).map_err(|e| format!("tls: {e}"))?;
+    if !c.client_preface(&[]) {
+        return Err("preface".into());
+    }
+    let (big, small) = if sp.big_first { (1u32, 3u32) } else { (3u32, 1u32) };
+    let small_req = format!("{req}x");
+    ctx.sid = big;
+    // the initial windows cover a slow-backend response entirely; a tail is released with one large grant:
+    // the client never writes while it reads the end of a response (a write racing the worker's close
+    // would turn into a reset on the client's side, whatever the worker did)
+    ctx.h2.grant = false;
+    ctx.h2.streams.insert(big, H2Rx { big: true, salt, by: "none".into(), ..Default::default() });
+    ctx.h2.streams.insert(small, H2Rx { by: "none".into(), ..Default::default() });
+    // opened first, answered second: the small exchange must be over before the large response takes the
+    // connection window
+    let big_delay = if sp.big_first { BACKEND_DELAY_MS } else { 0 };
+    let send_big = |c: &mut H2Conn<TlsStream>| h2_send_headers_x(c, big, req, big_delay, BODY.len(), false, Some(&spec)) && c.send(&Frame::data(big, BODY.to_vec(), true));
+    let send_small = |c: &mut H2Conn<TlsStream>| h2_send_headers(c, small, &small_req, 0, BODY.len(), false) && c.send(&Frame::data(small, BODY.to_vec(), true));
+    if sp.big_first {
+        if !send_big(&mut c) || wait_seen(req, T_IO).as_deref() != Some("old") {
+            return Err("the request head did not reach the old worker's backend".into());
+        }
+        ctl.log(open_ev("h2Await"));
+        if !send_small(&mut c) {
+            return Err("second stream".into());
+        }
+    } else if !send_small(&mut c) {
+        return Err("first stream".into());
+    }
+    let end = h2_pump(&mut c, &mut ctx.h2, T_IO, None, &|st| st.streams[&small].end || st.streams[&small].rst);
+    let sm = ctx.h2.streams[&small].clone();
+    if !end.is_empty() || sm.status != "200" || sm.small != format!("old:{small_req}").into_bytes() {
+        return Err(format!("the small exchange on stream {small} did not complete: {end} {}", sm.status));
+    }
+    if !sp.big_first {
+        if !send_big(&mut c) || wait_seen(req, T_IO).as_deref() != Some("old") {
+            return Err("the request head did not reach the old worker's backend".into());
+        }
+        ctl.log(open_ev("h2Await"));
+    }
+    if !tail {
+        let end = h2_pump(&mut c, &mut ctx.h2, T_IO, None, &|st| st.streams[&big].got >= pause || st.streams[&big].end || st.streams[&big].rst);
+        if !end.is_empty() || ctx.h2.streams[&big].got < pause {
+            return Err(format!("first part: {end}"));
+        }
+        ctl.log(json!({"e": "RespPart", "r": r, "got": ctx.h2.streams[&big].got, "body": ctx.h2.streams[&big].got, "other_stream_done": small}));
+        return Ok((Conn::H2(Box::new(c)), ctx));
+    }
+    // (b) the client grants no window: what exceeds the initial windows stays in the worker
+    let end = h2_pump(&mut c, &mut ctx.h2, T_IO, Some(Duration::from_millis(500)), &|st| st.streams[&big].got + st.streams[&small].got >= H2_WINDOW || st.streams[&big].end || st.streams[&big].rst);
+    if !end.is_empty() {
+        return Err(format!("first part: {end}"));
+    }
+    let mut steps = 0usize;
+    while !wait_backend_done(req, &spec, be_addr, Duration::from_millis(if steps == 0 { 2000 } else { 100 })) {
+        steps += 1;
+        if steps > 60 {
+            return Err("the backend never got to the end of its response".into());
+        }
+        c.send(&Frame::window_update(0, 2048));
+        c.send(&Frame::window_update(big, 2048));
+        let _ = h2_pump(&mut c, &mut ctx.h2, Duration::from_millis(300), Some(Duration::from_millis(80)), &|st| st.streams[&big].end || st.streams[&big].rst);
+    }
+    // whatever was still on its way
+    let _ = h2_pump(&mut c, &mut ctx.h2, Duration::from_millis(300), Some(Duration::from_millis(60)), &|st| st.streams[&big].end || st.streams[&big].rst);
+    let got = ctx.h2.streams[&big].got;
+    ctx.delivered = Some(got);
+    let st = resp_get(req);
+    ctx.info = json!({"window": H2_WINDOW, "fallback_steps": steps, "delivered": got, "held_est": spec.n as i64 - got as i64, "other_stream_done": small, "buffer_size": buffer_size});
+    ctl.log(json!({"e": "RespPart", "r": r, "got": got, "body": got, "other_stream_done": small}));
+    ctl.log(json!({"e": "RespBackendDone", "r": r, "released": spec.close, "backend_failed": st.failed, "held_est": spec.n as i64 - got as i64}));
+    Ok((Conn::H2(Box::new(c)), ctx))
+}
+
+/// what the environment does at the release moment of a parked slot; false: a write failed
+fn slot_release_io(s: &mut Slot) -> bool {
+    if let Some(rc) = s.rc.as_mut() {
+        if rc.spec.pause_at > 0 {
+            resp_update(&s.req, |st| st.gate = true);
+        }
+        if let Some(Conn::H2(c)) = s.conn.as_mut() {
+            return c.send(&Frame::window_update(0, 1 << 20)) && c.send(&Frame::window_update(rc.sid, 1 << 20));
+        }
+        return true;
+    }
+    match s.conn.as_mut() {
+        Some(Conn::H1(t)) => {
+            let from = s.head_sent + s.body_sent;
+            let rest = s.full[from..].to_vec();
+            rest.is_empty() || t.write_all(&rest).is_ok()
+        }
+        Some(Conn::H2(c)) => s.spec.stage != "h2Open" || c.send(&Frame::data(1, BODY.to_vec(), true)),
+        None => true,
+    }
+}
+
+/// reads the answer of a released slot to its end: (outcome, by, what was measured)
+fn slot_read_out(s: &mut Slot, to: Duration) -> (String, String, Value) {
+    if let Some(rc) = s.rc.as_mut() {
+        let n = rc.spec.n;
+        return match s.conn.as_mut() {
+            Some(Conn::H1(t)) => {
+                let end = h1_pump(t, &mut rc.h1, to, usize::MAX, &|p| p.complete);
+                let out = rc.h1.outcome(end, n);
+                let by = if out == "done" { rc.h1.by.clone() } else { "none".to_string() };
+                let held = if out == "done" { rc.delivered.map(|d| rc.h1.raw as i64 - d as i64) } else { None };
+                (out, by, json!({"got": rc.h1.body_got, "total": n, "end": end, "client_sees": rc.h1.framing, "corrupt_at": rc.h1.corrupt, "held": held, "setup": rc.info}))
+            }
+            Some(Conn::H2(c)) => {
+                let sid = rc.sid;
+                let end = h2_pump(c, &mut rc.h2, to, None, &|st| st.streams[&sid].end || st.streams[&sid].rst);
+                let x = rc.h2.streams[&sid].clone();
+                let out = h2_big_outcome(&x, end, n);
+                let by = if out == "done" { x.by.clone() } else { "none".to_string() };
+                let held = if out == "done" { rc.delivered.map(|d| n as i64 - d as i64) } else { None };
+                (out, by, json!({"got": x.got, "total": n, "end": end, "rst": x.rst, "goaway": rc.h2.goaway, "io_error": c.io_error, "corrupt_at": x.corrupt, "held": held, "setup": rc.info}))
+            }
+            None => ("cut".to_string(), "none".to_string(), json!({})),
+        };
+    }
+    let (out, by) = match s.conn.as_mut() {
+        Some(Conn::H1(t)) => h1_read_response(t, &s.req, to),
+        Some(Conn::H2(c)) => h2_read_response(c, 1, &s.req, to),
+        None => ("cut".to_string(), "none".to_string()),
+    };
+    (out, by, json!({}))
+}
+
+fn slot_end_event(r: usize, s: &Slot, out: &str, by: &str, extra: Value) -> Value {
+    let mut e = json!({"e": "SlotEnd", "r": r, "out": out, "by": by, "req": s.req});
+    if let (Some(o), Some(x)) = (e.as_object_mut(), extra.as_object()) {
+        for (k, v) in x {
+            o.insert(k.clone(), v.clone());
+        }
+    }
+    e
 }
 
 fn status_name(s: i32) -> &'static str {
@@ -633,11 +1580,12 @@ fn run_scenario(sc: &Scenario, be: &Backends, pause_ms: u64, jitter_ms: u64, see
         }
     };
     let ctr = Arc::new(AtomicUsize::new(0));
-    let mut ctl = Ctl { ev: Vec::new(), ctr: ctr.clone(), rng: StdRng::seed_from_u64(seed ^ (sc.run as u64) << 8), jitter_ms };
+    let mut ctl = Ctl { ev: Vec::new(), ctr: ctr.clone(), rng: StdRng::seed_from_u64(seed ^ (sc.run as u64) << 8), jitter_ms, stop_at: None, resume_ms: 0, inconclusive: None };
+    ctl.resume_ms = ctl.rng.random_range(300..=700);
     let cfg = json!({
         "mode": sc.mode, "order": sc.order, "crash": sc.crash, "deadline_s": sc.deadline_s,
         "addrs": sc.protos.iter().enumerate().map(|(i, p)| json!({"a": i + 1, "proto": p, "addr": addrs[i].to_string()})).collect::<Vec<_>>(),
-        "slots": sc.slots.iter().enumerate().map(|(i, s)| json!({"r": i + 1, "stage": s.stage, "partial": s.partial, "release": s.release})).collect::<Vec<_>>(),
+        "slots": sc.slots.iter().enumerate().map(|(i, s)| json!({"r": i + 1, "stage": s.stage, "partial": s.partial, "release": s.release, "resp": s.resp.as_ref().map(|x| x.json()), "big_first": s.big_first})).collect::<Vec<_>>(),
     });
     let fail = |why: String, ctl: &Ctl| json!({"run": sc.run, "cfg": cfg, "invalid": why, "ctl": ctl.ev, "ham": []});
 
@@ -666,7 +1614,7 @@ fn run_scenario(sc: &Scenario, be: &Backends, pause_ms: u64, jitter_ms: u64, see
     let mut invalid: Option<String> = None;
     for (i, sp) in sc.slots.iter().enumerate() {
         if sp.stage == "none" {
-            slots.push(Slot { spec: sp.clone(), a: 0, conn: None, req: String::new(), body_sent: 0, head_sent: 0, full: vec![], ended: true, released: false });
+            slots.push(Slot { spec: sp.clone(), a: 0, conn: None, req: String::new(), body_sent: 0, head_sent: 0, full: vec![], ended: true, released: false, rc: None });
             continue;
         }
         let h2 = sp.stage.starts_with("h2");
@@ -677,6 +1625,18 @@ fn run_scenario(sc: &Scenario, be: &Backends, pause_ms: u64, jitter_ms: u64, see
         };
         let r = i + 1;
         let req = format!("r{}s{}", sc.run, r);
+        if sp.resp.is_some() {
+            match open_resp_slot(sp, r, ai + 1, addrs[ai], be.http_old, &req, old.config.buffer_size as usize, &mut ctl) {
+                Ok((conn, rc)) => {
+                    slots.push(Slot { spec: sp.clone(), a: ai + 1, conn: Some(conn), req: req.clone(), body_sent: 0, head_sent: 0, full: vec![], ended: false, released: false, rc: Some(rc) });
+                    continue;
+                }
+                Err(e) => {
+                    invalid = Some(format!("response slot {r} ({}): {e}", sp.stage));
+                    break;
+                }
+            }
+        }
         let delay = if sp.stage == "awaitResp" || sp.stage == "h2Await" { BACKEND_DELAY_MS } else { 0 };
         let tcp = match TcpStream::connect_timeout(&addrs[ai], T_IO) {
             Ok(t) => t,
@@ -686,7 +1646,7 @@ fn run_scenario(sc: &Scenario, be: &Backends, pause_ms: u64, jitter_ms: u64, see
             }
         };
         tcp.set_nodelay(true).ok();
-        let mut slot = Slot { spec: sp.clone(), a: ai + 1, conn: None, req: req.clone(), body_sent: 0, head_sent: 0, full: vec![], ended: false, released: false };
+        let mut slot = Slot { spec: sp.clone(), a: ai + 1, conn: None, req: req.clone(), body_sent: 0, head_sent: 0, full: vec![], ended: false, released: false, rc: None };
         if h2 {
             let mut c = match tls_over(tcp, T_IO) {
                 Ok(c) => c,
@@ -767,21 +1727,27 @@ fn run_scenario(sc: &Scenario, be: &Backends, pause_ms: u64, jitter_ms: u64, see
         if old_dead.load(Ordering::SeqCst) {
             return;
         }
+        // a client parked in the middle of its response stays silent for a while after the stop: the first
+        // passes of shut_down_sessions see the session with its response half delivered
+        if when != "beforeStop" && slots.iter().any(|s| !s.ended && s.spec.release == when && s.rc.is_some()) {
+            if ctl.stop_at.is_some() {
+                thread::sleep(Duration::from_millis(ctl.resume_ms));
+            }
+            let h2 = slots.iter().any(|s| !s.ended && s.spec.release == when && s.rc.is_some() && matches!(s.conn, Some(Conn::H2(_))));
+            if let Some(t0) = ctl.stop_at {
+                if h2 && t0.elapsed() > Duration::from_millis(3500) {
+                    ctl.inconclusive = Some(format!("overloaded: the parked client resumed {} ms after the stop, too close to the graceful deadline", t0.elapsed().as_millis()));
+                }
+            }
+        }
         for (i, s) in slots.iter_mut().enumerate() {
             if s.ended || s.spec.release != when {
                 continue;
             }
-            let okw = match s.conn.as_mut() {
-                Some(Conn::H1(t)) => {
-                    let from = s.head_sent + s.body_sent;
-                    let rest = s.full[from..].to_vec();
-                    rest.is_empty() || t.write_all(&rest).is_ok()
-                }
-                Some(Conn::H2(c)) => s.spec.stage != "h2Open" || c.send(&Frame::data(1, BODY.to_vec(), true)),
-                None => true,
-            };
+            let okw = slot_release_io(s);
             s.released = true;
-            ctl.log(json!({"e": "SlotRelease", "r": i + 1, "wrote": okw}));
+            let since = ctl.stop_at.map(|t| t.elapsed().as_millis() as u64);
+            ctl.log(json!({"e": "SlotRelease", "r": i + 1, "wrote": okw, "ms_since_stop_sent": since}));
         }
         for (i, s) in slots.iter_mut().enumerate() {
             if s.ended || s.spec.release != when {
@@ -801,13 +1767,12 @@ fn run_scenario(sc: &Scenario, be: &Backends, pause_ms: u64, jitter_ms: u64, see
                 }
             }
             let to = slot_timeout(s, old_dead);
-            let (out, by) = match s.conn.as_mut() {
-                Some(Conn::H1(t)) => h1_read_response(t, &s.req, to),
-                Some(Conn::H2(c)) => h2_read_response(c, 1, &s.req, to),
-                None => ("cut".to_string(), "none".to_string()),
-            };
+            let (out, by, extra) = slot_read_out(s, to);
             s.ended = true;
-            ctl.log(json!({"e": "SlotEnd", "r": i + 1, "out": out, "by": by, "req": s.req}));
+            let since = ctl.stop_at.map(|t| t.elapsed().as_millis() as u64);
+            let mut e = slot_end_event(i + 1, s, &out, &by, extra);
+            e["ms_since_stop_sent"] = json!(since);
+            ctl.log(e);
         }
     }
 
@@ -829,6 +1794,7 @@ fn run_scenario(sc: &Scenario, be: &Backends, pause_ms: u64, jitter_ms: u64, see
     let send_stop = |old: &mut Worker, ctl: &mut Ctl, stop_id: &mut Option<String>, stop_sent_at: &mut Option<Instant>| {
         // taken BEFORE the command leaves: a lower bound of the moment the worker arms its graceful deadline
         *stop_sent_at = Some(Instant::now());
+        ctl.stop_at = *stop_sent_at;
         let id = send_old(old, RequestType::SoftStop(SoftStop {}));
         *stop_id = Some(id);
         ctl.log(json!({"e": "SoftStopSent"}));
@@ -1027,26 +1993,15 @@ fn run_scenario(sc: &Scenario, be: &Backends, pause_ms: u64, jitter_ms: u64, see
             continue;
         }
         if !s.released {
-            let okw = match s.conn.as_mut() {
-                Some(Conn::H1(t)) => {
-                    let from = s.head_sent + s.body_sent;
-                    let rest = s.full[from..].to_vec();
-                    rest.is_empty() || t.write_all(&rest).is_ok()
-                }
-                Some(Conn::H2(c)) => s.spec.stage != "h2Open" || c.send(&Frame::data(1, BODY.to_vec(), true)),
-                None => true,
-            };
+            let okw = slot_release_io(s);
             s.released = true;
             ctl.log(json!({"e": "SlotRelease", "r": i + 1, "wrote": okw}));
         }
         let to = slot_timeout(s, &old_dead);
-        let (out, by) = match s.conn.as_mut() {
-            Some(Conn::H1(t)) => h1_read_response(t, &s.req, to),
-            Some(Conn::H2(c)) => h2_read_response(c, 1, &s.req, to),
-            None => ("cut".to_string(), "none".to_string()),
-        };
+        let (out, by, extra) = slot_read_out(s, to);
         s.ended = true;
-        ctl.log(json!({"e": "SlotEnd", "r": i + 1, "out": out, "by": by, "req": s.req}));
+        let e = slot_end_event(i + 1, s, &out, &by, extra);
+        ctl.log(e);
     }
 
     // ---- the acknowledgement and the exit of the old worker
@@ -1188,7 +2143,11 @@ fn run_scenario(sc: &Scenario, be: &Backends, pause_ms: u64, jitter_ms: u64, see
         }
         ham2.push(out);
     }
-    json!({"run": sc.run, "cfg": cfg, "ctl": ctl.ev, "ham": ham2, "raw_exchanges": raw_exchanges})
+    let mut v = json!({"run": sc.run, "cfg": cfg, "ctl": ctl.ev, "ham": ham2, "raw_exchanges": raw_exchanges});
+    if let Some(why) = ctl.inconclusive.take() {
+        v["invalid"] = json!(why);
+    }
+    v
 }
 
 // ------------------------------------------------------------------------------------------------
@@ -1203,7 +2162,21 @@ const CRASHES: [&str; 5] = ["afterReturn", "afterReceived", "afterSuccStarted", 
 const LSETS: [&[&str]; 4] = [&["http", "https", "tcp"], &["http", "https"], &["https", "udp", "http"], &["tcp", "http", "https"]];
 
 fn slot(i: usize, release: &'static str) -> SlotSpec {
-    SlotSpec { stage: STAGES[i].0, partial: STAGES[i].1, release }
+    SlotSpec { stage: STAGES[i].0, partial: STAGES[i].1, release, resp: None, big_first: false }
+}
+
+/// a slot parked while its response is being delivered. Sizes: H1 tail 128-256 KiB (>= 8 x the worker's buffer,
+/// 60 x the client's receive buffer); H2 tail = the initial windows + 3-11 KB; slow backend: pause after the first part
+fn rslot(stage: &'static str, framing: &'static str, close: bool, release: &'static str, big_first: bool, rng: &mut StdRng) -> SlotSpec {
+    let (n, pause_at) = match stage {
+        "respTail" => {
+            (rng.random_range(131_072..262_144usize), 0)
+        }
+        "h2RespTail" => (H2_WINDOW + rng.random_range(3_000..11_000usize), 0),
+        "respStreaming" => (rng.random_range(80_000..160_000usize), rng.random_range(24..48usize) * CHUNK),
+        _ => (rng.random_range(40_000..60_000usize), rng.random_range(12..24usize) * CHUNK),
+    };
+    SlotSpec { stage, partial: false, release, resp: Some(RespSpec { framing, close: close || framing == "eof", n, pause_at }), big_first }
 }
 
 fn scenarios(thorough: bool, rng: &mut StdRng) -> Vec<Scenario> {
@@ -1270,6 +2243,40 @@ fn scenarios(thorough: bool, rng: &mut StdRng) -> Vec<Scenario> {
         s5.release = "never";
         push(&mut v, mode, ord, LSETS[0], vec![s5, slot(other, "afterStop")], "none", 1);
     }
+    // response delivery: the stop (or the hand-over and the stop) arrives while a response is on its way to a
+    // client that does not read (tail buffered in the worker, backend finished) or while a slow backend is
+    // still sending; the client reads on a few hundred ms after the stop
+    const FR: [(&str, bool); 4] = [("cl", true), ("eof", true), ("chunked", true), ("cl", false)];
+    if thorough {
+        let mut k = 0usize;
+        for (mode, ord) in [("handover", "upgradeRs"), ("handover", "stopFirst"), ("handover", "startFirst"), ("softstop", "stopFirst")] {
+            for (f, (framing, close)) in FR.iter().enumerate() {
+                for stage in ["respTail", "h2RespTail", "respStreaming", "h2RespStreaming"] {
+                    k += 1;
+                    let rel = if k % 5 == 0 { "afterAll" } else { "afterStop" };
+                    let (f2, c2) = FR[(f + k) % 4];
+                    let other = match k % 4 {
+                        0 => slot(rng.random_range(0..STAGES.len()), RELEASES[k % 3]),
+                        1 => rslot("respTail", f2, c2, "afterStop", false, rng),
+                        2 => rslot("h2RespTail", f2, c2, "afterStop", k % 8 < 4, rng),
+                        _ => rslot(if k % 8 < 4 { "respStreaming" } else { "h2RespStreaming" }, f2, c2, "afterStop", true, rng),
+                    };
+                    push(&mut v, mode, ord, LSETS[k % LSETS.len()], vec![rslot(stage, framing, *close, rel, k % 2 == 0, rng), other], "none", 0);
+                }
+            }
+        }
+    } else {
+        let o = rng.random_range(0..STAGES.len());
+        let b = rng.random_range(0..2usize) == 0;
+        push(&mut v, "handover", "upgradeRs", LSETS[1], vec![rslot("respTail", "cl", true, "afterStop", false, rng), rslot("respTail", "eof", true, "afterStop", false, rng)], "none", 0);
+        push(&mut v, "softstop", "stopFirst", LSETS[0], vec![rslot("respTail", "eof", true, "afterStop", false, rng), rslot("h2RespTail", "cl", true, "afterStop", b, rng)], "none", 0);
+        push(&mut v, "handover", "stopFirst", LSETS[2], vec![rslot("respTail", "chunked", true, "afterStop", false, rng), slot(o, RELEASES[o % 3])], "none", 0);
+        push(&mut v, "softstop", "stopFirst", LSETS[1], vec![rslot("respTail", "cl", false, "afterStop", false, rng), rslot("respStreaming", "cl", false, "afterStop", false, rng)], "none", 0);
+        push(&mut v, "handover", "startFirst", LSETS[3], vec![rslot("h2RespTail", "eof", true, "afterStop", !b, rng), rslot("respTail", "cl", true, "afterAll", false, rng)], "none", 0);
+        push(&mut v, "softstop", "stopFirst", LSETS[0], vec![rslot("h2RespTail", "chunked", true, if std::env::var("C10_X").is_ok() { "beforeStop" } else { "afterStop" }, false, rng), rslot("h2RespStreaming", "cl", true, "afterStop", true, rng)], "none", 0);
+        push(&mut v, "handover", "upgradeRs", LSETS[0], vec![rslot("respStreaming", "eof", true, "afterStop", false, rng), rslot("h2RespTail", "cl", true, "afterStop", true, rng)], "none", 0);
+        push(&mut v, "handover", "stopFirst", LSETS[1], vec![rslot("h2RespStreaming", "chunked", true, "afterStop", false, rng), rslot("respTail", "eof", true, "afterAll", false, rng)], "none", 0);
+    }
     v
 }
 
@@ -1282,6 +2289,7 @@ fn main() {
     let mut pause_ms = 1u64;
     let mut jitter_ms = 4u64;
     let mut limit: Option<usize> = None;
+    let mut resp_only = false;
     let mut i = 1;
     while i < args.len() {
         match args[i].as_str() {
@@ -1292,6 +2300,7 @@ fn main() {
             "--pause-ms" => { pause_ms = args[i + 1].parse().unwrap_or(1); i += 1; }
             "--jitter-ms" => { jitter_ms = args[i + 1].parse().unwrap_or(4); i += 1; }
             "--limit" => { limit = args[i + 1].parse().ok(); i += 1; }
+            "--resp-only" => { resp_only = true; }
             _ => {}
         }
         i += 1;
@@ -1300,6 +2309,9 @@ fn main() {
     let mut scs = scenarios(thorough, &mut rng);
     if let Some(o) = only {
         scs.retain(|s| s.run == o);
+    }
+    if resp_only {
+        scs.retain(|s| s.slots.iter().any(|x| x.resp.is_some()));
     }
     if let Some(l) = limit {
         scs.truncate(l);
